@@ -204,6 +204,15 @@ class BVExec:
             else:
                 raise Top("bitcast at %s" % i.loc)
         elif op == "getelementptr":
+            base = i.ops[0]
+            if base.k == "global":
+                # element of a constant integer table: (table, subscript vector)
+                from ..paths import const_table
+                t = const_table(self.m, base.name)
+                if t is None or len(i.ops) != 3 or not (i.ops[1].k == "int" and i.ops[1].uval == 0):
+                    raise Top("address of %s at %s (not a constant integer table)" % (base.name, i.loc))
+                env[i.name] = ("tbl", base.name, self.val(i.ops[2], env))
+                return
             v = self.val(i.ops[0], env)
             if isinstance(v, tuple) and v[0] == "cell" and all(o.k == "int" and o.uval == 0 for o in i.ops[1:]):
                 env[i.name] = v
@@ -217,6 +226,24 @@ class BVExec:
             env[("mem", pv[1])] = v
         elif op == "load":
             pv = self.val(i.ops[0], env)
+            if isinstance(pv, tuple) and pv[0] == "tbl":
+                from ..paths import const_table
+                vals, w = const_table(self.m, pv[1])
+                idx = pv[2]
+                if n != w:
+                    raise Top("load of width %s from table %s of i%d at %s" % (n, pv[1], w, i.loc))
+                res = bv.const(0, w)
+                inside = 0
+                for k, v in enumerate(vals):
+                    if k >> len(idx):
+                        break
+                    hit = bv.eq(idx, bv.const(k, len(idx)))
+                    inside = self.b.OR(inside, hit)
+                    res = bv.mux(hit, bv.const(v, w), res)
+                if self.b.AND(pc, self.b.NOT(inside)) != 0:
+                    raise Top("table %s can be indexed out of range at %s" % (pv[1], i.loc))
+                env[i.name] = res
+                return
             if not (isinstance(pv, tuple) and pv[0] == "cell"):
                 raise Top("load at %s (outside the integer-only fragment)" % i.loc)
             cur = env.get(("mem", pv[1]))
